@@ -18,9 +18,9 @@ def run(ctx):
     stage_erg_path()
     quick = ctx.tier == "quick"
     model_checks(ctx)
-    r, recs = derive("MC_TypedProg_sim.cfg", 3 if quick else 24, 9, ctx.seed + 7, "c02", per_shape=2 if quick else 40)
+    r, recs = derive("MC_TypedProg_sim.cfg", 3 if quick else 12, 9, ctx.seed + 7, "c02", per_shape=2 if quick else 40)
     ctx.tlc_stats(r, "TypedProg.tla (simulation, 9 statements)")
-    rc, recs_c = derive("MC_TypedProg_coll.cfg", 4 if quick else 24, 9, ctx.seed + 7 + 1, "c02c", per_shape=4 if quick else 60)
+    rc, recs_c = derive("MC_TypedProg_coll.cfg", 4 if quick else 12, 9, ctx.seed + 7 + 1, "c02c", per_shape=4 if quick else 60)
     ctx.tlc_stats(rc, "TypedProg.tla (simulation, strings and lists)")
     recs = recs + recs_c
     # exhaustive small programs: two literals and every operator / function signature on them
